@@ -39,11 +39,12 @@ func bvLit(lo, hi uint64, w int) string {
 
 // Query is a printable set of assertions with shared sub-terms named.
 type Query struct {
-	Vars  []*Term
-	Text  string // declarations, definitions and assertions (no push/pop/check-sat)
-	HasFP bool
-	Nonlin bool
-	Wide  bool
+	Vars    []*Term
+	Text    string // declarations, definitions and assertions (no push/pop/check-sat)
+	HasFP   bool
+	Nonlin  bool
+	Wide    bool
+	IntMode bool // integer translation: models come back as numerals
 }
 
 type printer struct {
